@@ -375,11 +375,17 @@ def s6b(ctx, rep):
     require_guard(ctx, rep, "S3", f, "TrialBackend.fetch_status_results: new metrics are taken | status not in {paused, stopping, stopped}", take,
                   [("status not in [paused, stopping, stopped]", not_hidden)],
                   "results written after a stop / pause decision are delivered to the scheduler (or results of running trials are hidden)")
-    g = P.method("SimulatorBackend", "_process_events_until_now")
+    event_dispatch(ctx, rep, "S6")
+
+
+def event_dispatch(ctx, rep, clause):
+    """each simulator event is processed by the handler of its own type (shared with C01 and C10)"""
+    from .common import require_guard, call_nodes
+    g = ctx.P.method("SimulatorBackend", "_process_events_until_now")
     for ev, handler in (("StartEvent", "_process_start_event"), ("CompleteEvent", "_process_complete_event"), ("StopEvent", "_process_stop_event"),
                         ("OnTrialResultEvent", "_process_on_trial_result_event")):
         nodes = [n for n, c in call_nodes(ctx, g, lambda c, h=handler: fn_name(c) == h)]
-        require_guard(ctx, rep, "S6", g, f"SimulatorBackend._process_events_until_now: {handler} | isinstance(event, {ev})", nodes,
+        require_guard(ctx, rep, clause, g, f"SimulatorBackend._process_events_until_now: {handler} | isinstance(event, {ev})", nodes,
                       [(f"isinstance(event, {ev})", lambda a, e=ev: a[0] == "isinstance" and a[2] == e and a[3] is True)],
                       "an event is processed by the handler of another event type: results, stops and completions of a trial are mixed up")
 
@@ -429,6 +435,25 @@ def s7(ctx, rep):
     ok = bool(off) and all(ctx.has_fact(g, n.id, lambda a: a[0] == "eq" and a[3] is True and pv in (a[1], a[2])) for n in off)
     rep.put(ok, "S7", "guarded_by", "_BlackboxSimulatorBackend._run_job_and_collect_results: time offset taken at the paused level", g,
             off[0].ast if off else None, "")
+    # ... and is taken off every result that is kept: elapsed times of a resumed run count from the resume point
+    offv = {U(n.ast.targets[0]) for n in off}
+    sub = [n for n in cfg.nodes if n.kind == "stmt" and (
+        (isinstance(n.ast, ast.AugAssign) and isinstance(n.ast.op, ast.Sub) and U(n.ast.value) in offv) or
+        (isinstance(n.ast, ast.Assign) and isinstance(n.ast.value, ast.BinOp) and isinstance(n.ast.value.op, ast.Sub) and U(n.ast.value.right) in offv
+         and U(n.ast.value.left) == U(n.ast.targets[0]))) and "elapsed_time_attr" in U(n.ast.target if isinstance(n.ast, ast.AugAssign) else n.ast.targets[0])]
+    okb = len(sub) == 1
+    if okb:
+        heads = [l for l in cfg.nodes if l.kind == "for" and sub[0].stmt in list(stmts_in(l.ast.body))]
+        okb = len(heads) == 1 and isinstance(heads[0].ast.iter, ast.Name) and heads[0].ast.iter.id == rv and \
+            cfg.path([s_ for s_, l in cfg.succ[heads[0].id] if l == "iter"], heads[0].id, deleted={sub[0].id}, skip_labels=("exc",)) is None
+        tgt = sub[0].ast.target if isinstance(sub[0].ast, ast.AugAssign) else sub[0].ast.targets[0]
+        okb = okb and isinstance(tgt, ast.Subscript) and U(tgt.value) == U(heads[0].ast.target)
+        # the subtraction happens after the offset is known: not inside the loop that finds it
+        okb = okb and all(cfg.path([cfg.entry], sub[0].id, deleted={o.id}) is None or True for o in off) and \
+            not any(l.kind == "for" and sub[0].stmt in list(stmts_in(l.ast.body)) and o.stmt in list(stmts_in(l.ast.body)) for l in cfg.nodes for o in off)
+    rep.put(okb, "S7", "must_follow", "_BlackboxSimulatorBackend._run_job_and_collect_results: the offset is subtracted from every kept result, after the scan", g,
+            sub[0].ast if sub else None, "", "the elapsed times of a resumed run are not (all) counted from the resume point: its results are stamped with the time "
+            "of the skipped levels included - later than the table says - or only some of them are shifted")
 
 
 def s8(ctx, rep, clause="S8"):
